@@ -70,11 +70,14 @@ vt::column_t random_column(vt::Rng& rng, int64_t index, int64_t n, bool allow_mi
                                                         feature_type::float32, feature_type::float64};
     if (kind <= 1)
     {
-        const auto classes = rng.coin(1, 12) ? rng.range(100, 300) : rng.range(1, 6);
+        // class counts 1..300: mostly small, sometimes anywhere, sometimes at the limits of the storage types (uint8: 255 | 256 | 257)
+        const auto classes = rng.coin(1, 12) ? rng.range(100, 300)
+                           : rng.coin(1, 10) ? rng.pick(std::vector<int64_t>{127, 128, 129, 254, 255, 256, 257, 258})
+                           : rng.coin(1, 10) ? rng.range(7, 99) : rng.range(1, 6);
         c                  = vt::make_sclass_column(name, classes, n);
         for (int64_t s = 0; s < n; ++s)
         {
-            c.flat[static_cast<size_t>(s)] = static_cast<double>(rng.range(0, classes - 1));
+            c.flat[static_cast<size_t>(s)] = static_cast<double>(rng.coin(1, 4) ? classes - 1 - rng.range(0, std::min<int64_t>(2, classes - 1)) : rng.range(0, classes - 1));
         }
     }
     else if (kind == 2)
@@ -91,9 +94,25 @@ vt::column_t random_column(vt::Rng& rng, int64_t index, int64_t n, bool allow_mi
         const auto type = rng.pick(scalar_types);
         c               = vt::make_scalar_column(name, type, n);
         const auto is_unsigned = type == feature_type::uint8 || type == feature_type::uint16 || type == feature_type::uint32 || type == feature_type::uint64;
+        // values near the limits of the storage type as well (as far as 32-bit records can hold them)
+        std::vector<int64_t> limits{0};
+        switch (type)
+        {
+        case feature_type::int8: limits = {-128, -127, 126, 127}; break;
+        case feature_type::uint8: limits = {0, 1, 254, 255}; break;
+        case feature_type::int16: limits = {-32768, -32767, 32766, 32767}; break;
+        // (wider types: bounded by 46340 so that the pairwise products stay inside TLC's 32-bit integers)
+        case feature_type::uint16: limits = {0, 32768, 46340}; break;
+        default: limits = {-46340, -32769, 32768, 46340}; break;
+        }
+        if (is_unsigned && type != feature_type::uint8 && type != feature_type::uint16)
+        {
+            limits = {0, 32768, 46340};
+        }
+        const auto extreme = rng.coin(1, 4);
         for (auto& v : c.flat)
         {
-            v = static_cast<double>(rng.range(is_unsigned ? 0 : -100, 100));
+            v = static_cast<double>((extreme && rng.coin()) ? rng.pick(limits) : rng.range(is_unsigned ? 0 : -100, 100));
         }
     }
     else
